@@ -209,6 +209,8 @@ class VN(Problem):
             fn = call.func
             name = U(fn).split(".")[-1]
             v = ("def", nid, "call:" + name)
+            if self._inline_self_helper(env, cs, call, nid):
+                continue
             if cs is None or cs.kind in ("unknown", "param"):
                 # an unresolved callee can write the objects it receives: each bare-name argument (anything below it), and
                 # its receiver object - for a receiver path root.attr... that is the object held in root.attr, not root
@@ -238,6 +240,48 @@ class VN(Problem):
                         self._clobber_root(env, r, fld, v)
                     else:
                         self._store(env, k, v, nid)
+
+    def _inline_self_helper(self, env: dict, cs, call: ast.Call, nid: int, _depth: list = [0]) -> bool:
+        """`self._helper()`: a private method of the caller's own class, without parameters and without control flow (assignments
+        to fields of self, container mutations, a final return) - the bookkeeping part of a method moved out of it.  Its
+        statements are evaluated in the caller's environment, as if written in place (the receiver is the caller's self)."""
+        f = self.f
+        if cs is None or len(getattr(cs, "callees", []) or []) != 1 or cs.kind != "method" or f.cls is None or call.args or call.keywords \
+                or not f.node.args.args or _depth[0] > 1:
+            return False
+        g = cs.callees[0]
+        fn = call.func
+        selfn = f.node.args.args[0].arg
+        if g.cls != f.cls or g is f or not g.name.startswith("_") or g.name.startswith("__") or not isinstance(fn, ast.Attribute) \
+                or not (isinstance(fn.value, ast.Name) and fn.value.id == selfn) \
+                or len(g.node.args.args) != 1 or g.node.args.args[0].arg != selfn or g.node.args.kwonlyargs or g.node.args.vararg or g.node.args.kwarg:
+            return False
+        body = [st for st in g.node.body if not (isinstance(st, ast.Expr) and isinstance(st.value, ast.Constant))]
+        if not body or not all(isinstance(st, (ast.Assign, ast.AugAssign, ast.AnnAssign, ast.Expr, ast.Return)) for st in body) \
+                or any(isinstance(st, ast.Return) for st in body[:-1]):
+            return False
+        # no local may clash with a name of the caller
+        caller_names = {x.id for x in ast.walk(f.node) if isinstance(x, ast.Name)}
+        locals_g = {x.id for st in body for x in ast.walk(st) if isinstance(x, ast.Name) and isinstance(x.ctx, ast.Store)}
+        if locals_g & caller_names:
+            return False
+        _depth[0] += 1
+        try:
+            cur = env
+            for st in body:
+                if isinstance(st, ast.Return):
+                    if st.value is not None:
+                        self._calls(cur, st.value, nid)
+                    break
+                out = self.edge(Node(nid, "stmt", st), cur, "", None)          # type: ignore[arg-type]
+                if out is None:
+                    return False
+                cur = out
+            env.clear()
+            env.update(cur)
+        finally:
+            _depth[0] -= 1
+        return True
 
     # ------------------------------------------------------------------ Problem interface
     def entry_state(self) -> dict:
